@@ -206,3 +206,57 @@ Fixpoint exp_walk (seekpath : bool) (base : N) (w : list bool) (bs : list block)
       (s :: fst r, snd r)
     end
   end.
+
+(* ---- br.offset as the uint64 it is -------------------------------------------------------------
+   The functions above keep br.offset unbounded.  Here every assignment to br.offset is reduced
+   modulo 2^64 (NewBlockReader's `br.offset = ...; br.offset += hs`, Next's `br.offset += ...`,
+   SkipNext's `br.offset = br.offset + lenSize + cidSize + blockSize`); the comparisons and the
+   metadata then see the wrapped value, exactly as in the Go code.  These are the functions the
+   harness runs; BlockReaderPosWrap.v proves they coincide with the unbounded ones whenever the
+   source is shorter than 2^64 bytes (more precisely: offset slack + size < 2^64). *)
+Definition wrap_off (st : brp) : brp := set_off (wrap64 (p_off st)) st.
+
+Section Oracles64.
+  Variable hok : bytes -> bytes -> option bool.
+  Variable hdrdec : bytes -> option (list bytes * N).
+
+  Definition brp_open64 (o : ropts) (seek : bool) (file : bytes) : res (N * list bytes * brp) :=
+    match brp_open hdrdec o seek file with
+    | Err e => Err e
+    | Ok (v, roots, st) => Ok (v, roots, wrap_off st)
+    end.
+  Definition brp_next64 (o : ropts) (st : brp) : res (block * brp) :=
+    match brp_next hok o st with
+    | Err e => Err e
+    | Ok (b, st') => Ok (b, wrap_off st')
+    end.
+  Definition brp_skip64 (o : ropts) (st : brp) : res (meta * brp) :=
+    match brp_skip o st with
+    | Err e => Err e
+    | Ok (m, st') => Ok (m, wrap_off st')
+    end.
+  Fixpoint brp_walk64 (o : ropts) (w : list bool) (st : brp) : list step * (option err * brp) :=
+    match w with
+    | [] => ([], (None, st))
+    | true :: w' =>
+      match brp_next64 o st with
+      | Err e => ([], (Some e, end_state e st))
+      | Ok ((c, d), st') =>
+        let r := brp_walk64 o w' st' in
+        (StN c d (p_pos st') (p_hw st') :: fst r, snd r)
+      end
+    | false :: w' =>
+      match brp_skip64 o st with
+      | Err e => ([], (Some e, end_state e st))
+      | Ok (m, st') =>
+        let r := brp_walk64 o w' st' in
+        (StS m (p_pos st') (p_hw st') :: fst r, snd r)
+      end
+    end.
+  Definition brp_run64 (o : ropts) (seek : bool) (file : bytes) (w : list bool)
+    : res (N * list bytes * brp * (list step * (option err * brp))) :=
+    match brp_open64 o seek file with
+    | Err e => Err e
+    | Ok (v, roots, st0) => Ok (v, roots, st0, brp_walk64 o w st0)
+    end.
+End Oracles64.
